@@ -816,8 +816,10 @@ def mr_run(work, binary, verdict, stats, tier, seed):
     seqc = dict(MR_BASE, ops=6 if quick else 7)
     conc_a = {"mode": "conc", "ufrags": ["u1", "u2"], "fams": ["4"], "srcs": ["s1"], "kinds": ["data", "u1"], "writers": ["w1", "w2"],
               "maxconns": 2, "grams": 1 if quick else 2, "writes": 2, "removes": 1, "closes": 0, "stale": True, "setupfirst": True}
-    conc_b = {"mode": "conc", "ufrags": ["u1"], "fams": ["4"], "srcs": ["s1", "m1"] if not quick else ["s1"], "kinds": ["data", "u1"],
+    conc_b = {"mode": "conc", "ufrags": ["u1"], "fams": ["4"], "srcs": ["s1"], "kinds": ["data", "u1"],
               "writers": ["w1", "w2"], "maxconns": 1, "grams": 2, "writes": 2, "removes": 1, "closes": 1, "stales": 1, "stale": True, "setupfirst": True}
+    # (with the watcher goroutine of a closed connection as a process of its own, a second source form in conc_b makes the graph too
+    # large to plan and replay within memory - one worker process of 9.5 GB; the source forms are varied in the sequential configuration)
     # the users read while the dispatcher works: a backlog, reads with a buffer that is too short, the holders going round the pool
     conc_c = {"mode": "conc", "ufrags": ["u1", "u2"], "fams": ["4"], "srcs": ["s1"], "kinds": ["u1", "u2"], "writers": ["w1"],
               "maxconns": 2, "grams": 3 if quick else 4, "writes": 0, "removes": 0, "closes": 0, "reads": 2 if quick else 3, "stale": False,
